@@ -27,6 +27,7 @@ EXTENDS Project, Json
 CONSTANTS CfgChoices,        \* set of cfg records
           CtrlChoices,       \* set of controller records without id
           MethodChoices,     \* set of method records without ctrl/name/sig/anns (those are derived)
+          TypeChoices,       \* set of sequences of type declarations a project may contain
           MaxCtrls, MaxMethods,
           SortBeforeReduce   \* BOOLEAN: controllers are sorted by name BEFORE import serials are handed out (the repaired code)
 
@@ -56,11 +57,13 @@ AutoAnns(c, mc) == LET ph == Placeholders(c.prefix \o mc.route) IN
 MkCtrl(cc, k) == [id |-> CtrlId(k), pkg |-> cc.pkg, file |-> cc.file, name |-> cc.name, prefix |-> cc.prefix, tag |-> cc.tag,
                   sec |-> cc.sec, desc |-> cc.desc]
 MkMethod(c, mc, k) ==
-    [ctrl |-> c.id, file |-> IF mc.file = "" THEN c.file ELSE mc.file, name |-> NameOfMethod(k), verb |-> mc.verb, route |-> mc.route,
+    [ctrl |-> c.id, file |-> IF mc.file = "" THEN c.file ELSE mc.file, name |-> NameOfMethod(k), verb |-> mc.verb,
+     route |-> IF "uniq" \in DOMAIN mc THEN "/m" \o ToString(k) \o mc.route ELSE mc.route,
      hidden |-> mc.hidden, deprecated |-> mc.deprecated, sec |-> mc.sec,
      sig |-> IF "sig" \in DOMAIN mc THEN mc.sig ELSE AutoSig(c, mc),
      anns |-> IF "anns" \in DOMAIN mc THEN mc.anns ELSE AutoAnns(c, mc),
-     ret |-> mc.ret, errors |-> mc.errors, response |-> mc.response, desc |-> mc.desc]
+     ret |-> mc.ret, errors |-> mc.errors, response |-> mc.response, desc |-> mc.desc,
+     ptag |-> IF "ptag" \in DOMAIN mc THEN mc.ptag ELSE ""]
 
 MethodsOfLast == IF proj.ctrls = <<>> THEN 0
                  ELSE Cardinality({i \in DOMAIN proj.methods : proj.methods[i].ctrl = proj.ctrls[Len(proj.ctrls)].id})
@@ -162,7 +165,7 @@ WriteSpec ==
 Session == LoadConfig \/ LoadPackages \/ (\E f \in pending : VisitFile(f)) \/ Validate \/ Reduce \/ WriteRoutes
            \/ BuildSpec30 \/ ValidateSpec30 \/ BuildSpec31 \/ ValidateSpec31 \/ WriteSpec
 
-Init == /\ proj \in {[cfg |-> c, ctrls |-> <<>>, methods |-> <<>>, types |-> <<>>] : c \in CfgChoices}
+Init == /\ proj \in {[cfg |-> c, ctrls |-> <<>>, methods |-> <<>>, types |-> ts] : c \in CfgChoices, ts \in TypeChoices}
         /\ pc = "author" /\ pending = {} /\ visited = <<>> /\ order = <<>> /\ serial = <<>> /\ fsys = NoFs
         /\ valid30 = FALSE /\ valid31 = FALSE /\ exit = [code |-> 9, msg |-> ""]
 
@@ -183,7 +186,7 @@ SimAuthor ==
               [] OTHER -> IF MethodsOfLast < MaxMethods THEN \E mc \in One(MethodChoices) : AddMethod(mc) ELSE Freeze
     \/ /\ pc = "author" /\ proj.ctrls = <<>> /\ \E cc \in One(CtrlChoices) : AddCtrl(cc)
     \/ /\ pc = "author" /\ proj.ctrls # <<>> /\ MethodsOfLast = 0 /\ \E mc \in One(MethodChoices) : AddMethod(mc)
-SimInit == /\ proj \in {[cfg |-> RandomElement(CfgChoices), ctrls |-> <<>>, methods |-> <<>>, types |-> <<>>]}
+SimInit == /\ proj \in {[cfg |-> RandomElement(CfgChoices), ctrls |-> <<>>, methods |-> <<>>, types |-> RandomElement(TypeChoices)]}
            /\ pc = "author" /\ pending = {} /\ visited = <<>> /\ order = <<>> /\ serial = <<>> /\ fsys = NoFs
            /\ valid30 = FALSE /\ valid31 = FALSE /\ exit = [code |-> 9, msg |-> ""]
 SimSpec == SimInit /\ [][SimAuthor]_vars
@@ -208,6 +211,8 @@ C13_Deterministic == pc = "done" => fsys.routesContent = Canonical
 Expect(p) == [ops |-> DocumentedOps(p), security |-> OpSecurity(p), enforceOk |-> EnforceOk(p), schemesDeclared |-> SchemesDeclared(p),
               ambiguous |-> Ambiguous(p), operations |-> ExpectedOperations(p),
               wellLinked |-> \A m \in Range(p.methods) : IsApi(m) => WellLinked(p, m),
-              served |-> Served(p)]
+              served |-> Served(p),
+              routes |-> {[name |-> m.name, wellLinked |-> WellLinked(p, m), wellLinkedAsBuilt |-> WellLinkedD(p, m, TRUE), ptag |-> m.ptag]
+                             : m \in {x \in Range(p.methods) : IsApi(x)}}]
 EmitCase == pc = "config" => PrintT("CASE " \o ToJson([cfg |-> proj.cfg, ctrls |-> proj.ctrls, methods |-> proj.methods, types |-> proj.types, expect |-> Expect(proj)]))
 =============================================================================
